@@ -254,7 +254,7 @@ def isinstance_classes(test: ast.expr) -> Optional[Tuple[str, List[str]]]:
     return None
 
 
-def expand_locals(fn_node: ast.AST, expr: ast.AST, depth: int = 5) -> ast.AST:
+def expand_locals(fn_node: ast.AST, expr: ast.AST, depth: int = 5, only=None) -> ast.AST:  # type: ignore[no-untyped-def]
     """`expr` with every local that has exactly one definition (a plain assignment) replaced by the
     expression it was assigned, transitively: what the expression is computed from."""
     import copy
@@ -275,6 +275,8 @@ def expand_locals(fn_node: ast.AST, expr: ast.AST, depth: int = 5) -> ast.AST:
 
         def visit_Name(self, node: ast.Name) -> ast.AST:
             if isinstance(node.ctx, ast.Load) and self.d > 0 and stores.get(node.id) == 1 and len(defs.get(node.id, [])) == 1:
+                if only is not None and not only(defs[node.id][0]):
+                    return node
                 return _X(self.d - 1).visit(copy.deepcopy(defs[node.id][0]))
             return node
 
@@ -313,3 +315,26 @@ def preceding_def(fn_node: ast.AST, name: str, at: ast.AST) -> Optional[Tuple[as
                     between.append(s)
         cur = par
     return None
+
+
+def is_text_expr(v: ast.AST) -> bool:
+    return isinstance(v, ast.JoinedStr) or (isinstance(v, ast.Constant) and isinstance(v.value, str)) or (
+        isinstance(v, ast.BinOp) and isinstance(v.op, ast.Add) and (is_text_expr(v.left) or is_text_expr(v.right)))
+
+
+def resolved(fn_node: ast.AST, e: Optional[ast.expr], only=None) -> Optional[ast.expr]:  # type: ignore[no-untyped-def]
+    """`e` with single-definition locals replaced by their values and the result brought to canonical
+    expression form (so `match.path + suffix` with `suffix = f"[{i}]"` reads `f"{match.path}[{i}]"`)."""
+    if e is None:
+        return None
+    from sa.canon import _Expr
+
+    out = expand_locals(fn_node, e, only=only)
+    ast.fix_missing_locations(out)
+    for _ in range(4):
+        x = _Expr()
+        out = x.visit(out)
+        ast.fix_missing_locations(out)
+        if not x.changed:
+            break
+    return out  # type: ignore[return-value]
